@@ -107,7 +107,7 @@ def gen_perturbation(w, r, ir):
         kinds += ["block_attr", "block_attr", "block_kind_swap", "uuid_change"]
     if syms:
         kinds += ["sym_attr", "sym_attr", "sym_payload", "sym_payload"]
-    kinds += ["child_add", "child_remove", "edge_add", "edge_remove", "edge_label", "ir_version", "ir_aux_key"]
+    kinds += ["child_add", "child_remove", "edge_add", "edge_remove", "edge_label", "ir_version", "ir_aux_key", "edge_reorder", "edge_reorder", "aux_reorder"]
     k = pick(kinds)
     if k == "mod_attr":
         l = pick(mods)
@@ -272,6 +272,24 @@ def gen_perturbation(w, r, ir):
             {"op": "cfg", "ir": ir, "method": "discard", "args": [[e[0], e[1], list(e[2]) if e[2] else None]]},
             {"op": "cfg", "ir": ir, "method": "add", "args": [[e[0], e[1], list(new) if new else None]]},
         ], True)
+    if k == "edge_reorder":
+        # NEUTRAL: the same edge discarded and added again changes only the insertion order of
+        # the graph (it matters when parallel edges differ in label). Applied to one replica only.
+        cfg = sorted(m.nodes[ir].a["cfg"], key=repr)
+        par = [e for e in cfg if sum(1 for f in cfg if f[0] == e[0] and f[1] == e[1]) > 1] or cfg
+        if not par:
+            return None
+        e = pick(par)
+        ej = [e[0], e[1], list(e[2]) if e[2] else None]
+        return (k, [{"op": "cfg", "ir": ir, "method": "discard", "args": [ej]}, {"op": "cfg", "ir": ir, "method": "add", "args": [ej]}], False, True)
+    if k == "aux_reorder":
+        # NEUTRAL: delete and re-create a table under the same key (dict order changes)
+        cands = [(c, nme) for c in [ir] + mods for nme, t in m.nodes[c].a["aux"].items() if t["cv"] is not None and not R.has_unknown(R.parse_type(t["type"])) and t["state"] in ("fresh", "assigned")]
+        if not cands:
+            return None
+        c, nme = pick(cands)
+        t = m.nodes[c].a["aux"][nme]
+        return (k, [{"op": "aux_del", "c": c, "name": nme}, {"op": "aux_new", "c": c, "name": nme, "type": t["type"], "cv": t["cv"]}], False, True)
     if k == "ir_version":
         cur = m.nodes[ir].a["version"]
         return (k, setattr_(ir, "version", 5 if cur == 4 else 4), True)
@@ -418,7 +436,8 @@ class C18(PersistProfile):
                             p = gen_perturbation(A, rp, ir)
                         if p is None:
                             continue
-                        pname, pops, changes = p
+                        pname, pops, changes = p[:3]
+                        neutral = len(p) > 3 and p[3]
                         d = [OPS[o["op"]] for o in pops]
                         with seams.observing():
                             if not (labels_exist(A, pops[0], d[0]) and d[0].ready(A, pops[0])):
@@ -429,9 +448,10 @@ class C18(PersistProfile):
                             push(dict(o, world=first, pname=pname, changes=changes))
                         pk.append(pname)
                         push({"op": "deq", "ir": ir, "nodes": rp.random() < 0.3, "pname": pname})
-                        for o in pops:
-                            push(dict(o, world=second))
-                        push({"op": "deq", "ir": ir, "nodes": rp.random() < 0.15})
+                        if not neutral:
+                            for o in pops:
+                                push(dict(o, world=second))
+                            push({"op": "deq", "ir": ir, "nodes": rp.random() < 0.15})
                         done += 1
             except WatchdogTimeout:
                 A.violate(("C18",), "timeout", "deep_eq exceeded the CPU-time budget")
